@@ -14,6 +14,7 @@ type genOpts struct {
 	names            []string
 	jumbo            bool
 	lowBalance       bool
+	events           bool // one-time events among the operations
 	rgNums           bool // the three rating groups carry other numbers than 1, 2, 3 on the wire (0, large, sparse)
 	mixCompliant     bool // some containers report a share of the last grant (also all of it), others an absolute volume
 	bigCost          bool // unit costs up to 2^24 too, with volumes kept small enough for every price to fit 32 bits
@@ -170,6 +171,16 @@ func genHist(t *rapid.T, o genOpts) Hist {
 			kinds = append(kinds, "recharge")
 		}
 		k := rapid.SampledFrom(kinds).Draw(t, "kind")
+		if o.events && rapid.IntRange(0, 8).Draw(t, "event") == 0 {
+			// a one-time event reporting offline usage (no credit control: the accounting properties are not involved)
+			op := Op{K: "event", S: s, UUs: []UU{{RG: int32(rapid.IntRange(1, 3).Draw(t, "erg")), Req: 1,
+				Conts: []Cont{{Q: "offline", Tot: int32(rapid.IntRange(0, 999).Draw(t, "etot")), Up: 1, Down: 2, SSU: 3, Pm: -1}}}}}
+			if rapid.Bool().Draw(t, "twoContainers") {
+				op.UUs[0].Conts = append(op.UUs[0].Conts, Cont{Q: "offline", Tot: 7, Pm: -1})
+			}
+			hst.Ops = append(hst.Ops, op)
+			continue
+		}
 		if liveCount[s] == 0 && k != "recharge" {
 			k = "create"
 		}
